@@ -332,26 +332,32 @@ theorem sim_err1 {w : World} {j : JState} (h : RP w j) :
 /-- error_handler: exactly the running object's heart beat is switched off -/
 theorem sim_err {w : World} {j : JState} (h : RP w j) :
     R0 (errorHandler w) (jErr j) ∧ (jErr j).bad = j.bad ∧ (jErr j).inRound = j.inRound ∧
-    (jErr j).expect = (if j.inRound then .abort else j.expect) := by
+    (jErr j).expect = (if j.inRound then .abort else j.expect) ∧ (jErr j).cur = none := by
   obtain ⟨h0, hf⟩ := sim_err1 h
+  have hcn : (jErr1 j).cur = none := by
+    unfold jErr1
+    cases hjc : j.cur with
+    | none => exact hjc
+    | some c => rfl
   cases hr : j.inRound with
   | true =>
     have hr1 : (jErr1 j).inRound = true := by rw [hf.inRound, hr]
     have e : jErr j = { jErr1 j with expect := .abort } := by unfold jErr; rw [if_pos hr1]
     rw [e]
-    exact ⟨⟨h0.hbs, h0.known, h0.nofn, h0.dead, h0.flag, h0.cur, h0.ok, h0.cap, h0.sub⟩, hf.bad, hr1, rfl⟩
+    exact ⟨⟨h0.hbs, h0.known, h0.nofn, h0.dead, h0.flag, h0.cur, h0.ok, h0.cap, h0.sub⟩, hf.bad, hr1, rfl, hcn⟩
   | false =>
     have hr1 : (jErr1 j).inRound = false := by rw [hf.inRound, hr]
     have e : jErr j = jErr1 j := by unfold jErr; rw [if_neg (by rw [hr1]; decide)]
     rw [e]
-    exact ⟨h0, hf.bad, hr1, hf.expect⟩
+    exact ⟨h0, hf.bad, hr1, hf.expect, hcn⟩
 
 /-- what `sim_stepOp` / `sim_runOps` conclude -/
 def StepOK (w : World) (j : JState) (r : World × List Ev × Status) : Prop :=
   if r.2.2 = .err then
     R0 (errorHandler r.1) (r.2.1.foldl judge1 j) ∧ (r.2.1.foldl judge1 j).bad = j.bad ∧
       (r.2.1.foldl judge1 j).inRound = j.inRound ∧
-      (r.2.1.foldl judge1 j).expect = (if j.inRound then .abort else j.expect)
+      (r.2.1.foldl judge1 j).expect = (if j.inRound then .abort else j.expect) ∧
+      (r.2.1.foldl judge1 j).cur = none
   else RP r.1 (r.2.1.foldl judge1 j) ∧ Frame j (r.2.1.foldl judge1 j)
 
 theorem stepOK_one {w w' : World} {j j' : JState} {e : Ev} {st : Status} (hst : st ≠ .err)
@@ -505,5 +511,384 @@ theorem sim_stepOp {w : World} {j : JState} (h : RP w j) (ha : opAllowed j = tru
       simp only [stepOp]; rw [h.1.hbs]; rfl
     rw [hst]
     exact stepOK_one (by decide) (by simp [judge1]) h (Frame.refl j)
+
+theorem stepOK_nil (w : World) (j : JState) (h : RP w j) : StepOK w j (w, [], .ok) := by
+  unfold StepOK
+  simp only [List.foldl, reduceCtorEq, if_false]
+  exact ⟨h, Frame.refl j⟩
+
+theorem opAllowed_frame {j j' : JState} (hf : Frame j j') (ha : opAllowed j = true) : opAllowed j' = true := by
+  unfold opAllowed at *; rw [hf.expect]; exact ha
+
+theorem sim_runOps (self : Nat) : ∀ (ops : List Op) (w : World) (j : JState), RP w j → opAllowed j = true →
+    StepOK w j (runOps w self ops) := by
+  intro ops
+  induction ops with
+  | nil => intro w j h _; exact stepOK_nil w j h
+  | cons op rest ih =>
+    intro w j h ha
+    have h1 := sim_stepOp h ha self op
+    cases hs : stepOp w self op with
+    | mk w1 r =>
+      cases r with
+      | mk evs st =>
+        rw [hs] at h1
+        cases st with
+        | ok =>
+          unfold StepOK at h1
+          simp only [reduceCtorEq, if_false] at h1
+          obtain ⟨hR1, hF1⟩ := h1
+          have h2 := ih w1 (evs.foldl judge1 j) hR1 (opAllowed_frame hF1 ha)
+          simp only [runOps, hs]
+          cases hr : runOps w1 self rest with
+          | mk w2 r2 =>
+            cases r2 with
+            | mk evs2 st2 =>
+              rw [hr] at h2
+              unfold StepOK at h2 ⊢
+              simp only [List.foldl_append]
+              by_cases he : st2 = .err
+              · simp only [he, if_true] at h2 ⊢
+                obtain ⟨a, b, c, d, e⟩ := h2
+                refine ⟨a, b.trans hF1.bad, c.trans hF1.inRound, ?_, e⟩
+                rw [d, hF1.inRound, hF1.expect]
+              · simp only [he, if_false] at h2 ⊢
+                exact ⟨h2.1, Frame.trans hF1 h2.2⟩
+        | err => simp only [runOps, hs]; exact h1
+        | stop => simp only [runOps, hs]; exact h1
+
+theorem advance_fire {j : JState} {x : Entry} {rest : List Entry} (hp : j.pend = x :: rest)
+    (hf : (!j.nofn.contains x.ob && decide (wrap16 (x.ticks - 1) < 1)) = true) :
+    advance j = { j with done := j.done ++ [{ x with ticks := x.interval }], pend := rest, cur := some x.ob,
+                         expect := .beat x.ob } := by
+  unfold advance; rw [hp]; simp only [advanceL, hf, if_true]
+
+theorem advance_last {j : JState} {x : Entry} {rest : List Entry} (hp : j.pend = x :: rest)
+    (hf : (!j.nofn.contains x.ob && decide (wrap16 (x.ticks - 1) < 1)) = false)
+    (hl : (rest.isEmpty || j.trunc) = true) :
+    advance j = { j with done := j.done ++ [{ x with ticks := wrap16 (x.ticks - 1) }], pend := rest,
+                         expect := .endOfRound } := by
+  unfold advance; rw [hp]; simp only [advanceL, hf, hl, if_true, Bool.false_eq_true, if_false]
+
+theorem advance_skip {j : JState} {x : Entry} {rest : List Entry} (hp : j.pend = x :: rest)
+    (hf : (!j.nofn.contains x.ob && decide (wrap16 (x.ticks - 1) < 1)) = false)
+    (hl : (rest.isEmpty || j.trunc) = false) :
+    advance j = advance { j with done := j.done ++ [{ x with ticks := wrap16 (x.ticks - 1) }], pend := rest } := by
+  unfold advance; rw [hp]; simp only [advanceL, hf, hl, Bool.false_eq_true, if_false]
+
+theorem advance_nil {j : JState} (hp : j.pend = []) : advance j = { j with expect := .endOfRound } := by
+  unfold advance; rw [hp]; simp only [advanceL]
+
+/-- the round is over and the oracle accepted everything -/
+def Done (w' : World) (j' j : JState) : Prop :=
+  R0 w' j' ∧ j'.bad = j.bad ∧ j'.inRound = false ∧ j'.expect = .idle
+
+theorem done_end {w : World} {j : JState} (h0 : R0 w j) (he : j.expect = .endOfRound) :
+    Done (finish w) (judge1 j .tickEnd) j := by
+  have : judge1 j .tickEnd = endRound j := by simp [judge1, he]
+  rw [this]
+  refine ⟨⟨?_, h0.known, h0.nofn, h0.dead, h0.flag, rfl, h0.ok, h0.cap, h0.sub⟩, rfl, rfl, rfl⟩
+  show w.hbs = _
+  rw [h0.hbs]; simp [endRound]
+
+theorem done_abort {w : World} {j : JState} (h0 : R0 w j) (he : j.expect = .abort) (hc : j.cur = none) :
+    Done w (judge1 j .tickAbort) j := by
+  have : judge1 j .tickAbort = endRound j := by simp [judge1, he]
+  rw [this]
+  refine ⟨⟨?_, h0.known, h0.nofn, h0.dead, h0.flag, ?_, h0.ok, h0.cap, h0.sub⟩, rfl, rfl, rfl⟩
+  · rw [h0.hbs]; simp [endRound]
+  · rw [h0.cur, hc]; rfl
+
+theorem judge1_beat {j : JState} {o : Nat} (he : j.expect = .beat o) :
+    judge1 j (.beat o) = { j with expect := .inBeat } := by
+  simp [judge1, he]
+
+theorem judge1_beatEnd_trunc {j : JState} {o : Nat} (he : j.expect = .inBeat) (ht : j.trunc = true) :
+    judge1 j (.beatEnd o) = { j with expect := .endOfRound } := by
+  simp [judge1, he, ht]
+
+theorem judge1_beatEnd_adv {j : JState} {o : Nat} (he : j.expect = .inBeat) (ht : j.trunc = false) :
+    judge1 j (.beatEnd o) = advance j := by
+  simp [judge1, he, ht]
+
+/-- the while loop of call_heart_beat against the oracle's `advance`: at the loop head heart_beat_index is the
+    number of entries already served and num_hb_to_do - heart_beat_index the number still to serve -/
+theorem sim_round (sc : Scripts) : ∀ (fuel : Nat) (w : World) (j : JState),
+    R0 w j → j.inRound = true → w.idx = (j.done.length : Int) →
+    w.todo = (j.done.length : Int) + (j.pend.length : Int) → j.pend ≠ [] → j.pend.length ≤ fuel →
+    Done (round sc fuel w).1 ((round sc fuel w).2.foldl judge1 (advance j)) j := by
+  intro fuel
+  induction fuel with
+  | zero =>
+    intro w j _ _ _ _ hne hle
+    cases hp : j.pend with
+    | nil => exact absurd hp hne
+    | cons x r => rw [hp] at hle; simp at hle
+  | succ fuel ih =>
+    intro w j h0 hin hidx htodo hne hle
+    cases hp : j.pend with
+    | nil => exact absurd hp hne
+    | cons x rest =>
+      have hhbs : w.hbs = j.done ++ x :: (rest ++ j.late) := by rw [h0.hbs, hp]; simp
+      have hn : w.idx.toNat = j.done.length := by omega
+      have hneg : ¬ (w.idx < 0) := by omega
+      have hget : w.hbs[w.idx.toNat]? = some x := by rw [hn, hhbs]; exact get_mid _ _ _
+      have hlen : j.pend.length = rest.length + 1 := by rw [hp]; rfl
+      unfold round
+      simp only [hneg, if_false, hget]
+      cases hf : (!j.nofn.contains x.ob && decide (wrap16 (x.ticks - 1) < 1)) with
+      | true =>
+        have hfw : (!w.nofn.contains x.ob && decide (wrap16 (x.ticks - 1) < 1)) = true := by rw [h0.nofn]; exact hf
+        simp only [hfw, if_true]
+        -- the entry beats
+        have hadv := advance_fire hp hf
+        generalize hw1 : ({ w with hbs := w.hbs.set w.idx.toNat { x with ticks := x.interval }, cur := some x.ob, nb := fun o => if o = x.ob then w.nb o + 1 else w.nb o } : World) = w1
+        have hset : w1.hbs = (j.done ++ [{ x with ticks := x.interval }]) ++ rest ++ j.late := by
+          rw [← hw1]; show w.hbs.set w.idx.toNat _ = _
+          rw [hn, hhbs, set_mid]; simp
+        let j2 : JState := { j with done := j.done ++ [{ x with ticks := x.interval }], pend := rest, cur := some x.ob, expect := .inBeat }
+        have hj2 : judge1 (advance j) (.beat x.ob) = j2 := by
+          rw [hadv, judge1_beat rfl]
+        have hR2 : RP w1 j2 := by
+          refine ⟨⟨hset, ?_, ?_, ?_, ?_, ?_, ?_, ?_, ?_⟩, ?_⟩
+          · rw [← hw1]; exact h0.known
+          · rw [← hw1]; exact h0.nofn
+          · rw [← hw1]; exact h0.dead
+          · rw [← hw1]; exact h0.flag
+          · rw [← hw1]
+          · rw [← hw1]; exact h0.ok
+          · rw [hset]; have := h0.cap; rw [hhbs] at this; rw [← hw1]; simp at this ⊢; omega
+          · rw [← hw1]; exact h0.sub
+          · intro _
+            constructor
+            · show w1.idx + 1 = ((j.done ++ [{ x with ticks := x.interval }]).length : Int)
+              rw [← hw1]; simp; omega
+            · show w1.todo = ((j.done ++ [{ x with ticks := x.interval }]).length : Int) + (rest.length : Int)
+              rw [← hw1]; simp; omega
+        have hops := sim_runOps x.ob (sc x.ob (w.nb x.ob)) w1 j2 hR2 rfl
+        cases hr : runOps w1 x.ob (sc x.ob (w.nb x.ob)) with
+        | mk w2 r2 =>
+          cases r2 with
+          | mk evs st =>
+            rw [hr] at hops
+            unfold StepOK at hops
+            cases st with
+            | err =>
+              -- error in the heart_beat: that object is switched off, the round is abandoned
+              simp only [if_true] at hops
+              obtain ⟨a, b, c, d, e⟩ := hops
+              dsimp only
+              simp only [List.foldl_cons, List.foldl_append, List.foldl_nil, hj2]
+              have hd := done_abort a (by rw [d]; simp [j2, hin]) e
+              exact ⟨hd.1, hd.2.1.trans b, hd.2.2.1, hd.2.2.2⟩
+            | _ =>
+              simp only [reduceCtorEq, if_false] at hops
+              obtain ⟨hR3, hF3⟩ := hops
+              dsimp only
+              generalize hj3 : evs.foldl judge1 j2 = j3 at hR3 hF3
+              have hin3 : j3.inRound = true := by rw [hF3.inRound]; exact hin
+              have hex3 : j3.expect = .inBeat := by rw [hF3.expect]
+              obtain ⟨p1, p2⟩ := hR3.2 hin3
+              have hR03 : R0 { w2 with idx := w2.idx + 1 } j3 :=
+                ⟨hR3.1.hbs, hR3.1.known, hR3.1.nofn, hR3.1.dead, hR3.1.flag, hR3.1.cur, hR3.1.ok, hR3.1.cap, hR3.1.sub⟩
+              by_cases hfin : (decide (w2.idx + 1 = w2.todo) || w2.flag) = true
+              · simp only [hfin, if_true]
+                simp only [List.foldl_cons, List.foldl_append, List.foldl_nil, hj2, hj3]
+                cases htr : j3.trunc with
+                | true =>
+                  rw [judge1_beatEnd_trunc hex3 htr]
+                  have hd := done_end (w := { w2 with idx := w2.idx + 1 }) (j := { j3 with expect := .endOfRound })
+                    ⟨hR03.hbs, hR03.known, hR03.nofn, hR03.dead, hR03.flag, hR03.cur, hR03.ok, hR03.cap, hR03.sub⟩ rfl
+                  exact ⟨hd.1, hd.2.1.trans hF3.bad, hd.2.2.1, hd.2.2.2⟩
+                | false =>
+                  rw [judge1_beatEnd_adv hex3 htr]
+                  have hfl : w2.flag = false := by rw [hR3.1.flag]; exact htr
+                  have hpe : j3.pend = [] := by
+                    simp only [hfl, Bool.or_false, decide_eq_true_eq] at hfin
+                    have : j3.pend.length = 0 := by omega
+                    exact List.eq_nil_of_length_eq_zero this
+                  rw [advance_nil hpe]
+                  have hd := done_end (w := { w2 with idx := w2.idx + 1 }) (j := { j3 with expect := .endOfRound })
+                    ⟨hR03.hbs, hR03.known, hR03.nofn, hR03.dead, hR03.flag, hR03.cur, hR03.ok, hR03.cap, hR03.sub⟩ rfl
+                  exact ⟨hd.1, hd.2.1.trans hF3.bad, hd.2.2.1, hd.2.2.2⟩
+              · simp only [hfin, Bool.false_eq_true, if_false]
+                simp only [Bool.not_eq_true, Bool.or_eq_false_iff, decide_eq_false_iff_not] at hfin
+                have htr : j3.trunc = false := by rw [← hR3.1.flag]; exact hfin.2
+                have hpne : j3.pend ≠ [] := by
+                  intro hnil
+                  have : j3.pend.length = 0 := by rw [hnil]; rfl
+                  apply hfin.1; omega
+                have hple : j3.pend.length ≤ fuel := by
+                  have := hF3.pend
+                  have h2 : j2.pend.length = rest.length := rfl
+                  omega
+                have hih := ih { w2 with idx := w2.idx + 1 } j3 hR03 hin3 (by show w2.idx + 1 = _; omega)
+                  (by show w2.todo = _; omega) hpne hple
+                cases hrr : round sc fuel { w2 with idx := w2.idx + 1 } with
+                | mk w4 evs' =>
+                  rw [hrr] at hih
+                  simp only [List.foldl_cons, List.foldl_append, hj2, hj3]
+                  rw [judge1_beatEnd_adv hex3 htr]
+                  exact ⟨hih.1, hih.2.1.trans hF3.bad, hih.2.2.1, hih.2.2.2⟩
+      | false =>
+        have hfw : (!w.nofn.contains x.ob && decide (wrap16 (x.ticks - 1) < 1)) = false := by rw [h0.nofn]; exact hf
+        simp only [hfw, Bool.false_eq_true, if_false]
+        -- the entry is served without beating
+        let j1 : JState := { j with done := j.done ++ [{ x with ticks := wrap16 (x.ticks - 1) }], pend := rest }
+        have hR1 : R0 { w with hbs := w.hbs.set w.idx.toNat { x with ticks := wrap16 (x.ticks - 1) }, idx := w.idx + 1 } j1 := by
+          refine ⟨?_, h0.known, h0.nofn, h0.dead, h0.flag, h0.cur, h0.ok, ?_, h0.sub⟩
+          · show w.hbs.set w.idx.toNat _ = (j.done ++ [{ x with ticks := wrap16 (x.ticks - 1) }]) ++ rest ++ j.late
+            rw [hn, hhbs, set_mid]; simp
+          · show (w.hbs.set w.idx.toNat _).length ≤ w.cap
+            rw [List.length_set]; exact h0.cap
+        by_cases hfin : (decide (w.idx + 1 = w.todo) || w.flag) = true
+        · simp only [hfin, if_true]
+          have hl : (rest.isEmpty || j.trunc) = true := by
+            rw [← h0.flag]
+            cases hfl : w.flag with
+            | true => simp
+            | false =>
+              simp only [hfl, Bool.or_false, decide_eq_true_eq] at hfin
+              have : rest.length = 0 := by omega
+              simp [List.eq_nil_of_length_eq_zero this]
+          rw [advance_last hp hf hl]
+          simp only [List.foldl_cons, List.foldl_nil]
+          have hd := done_end (w := { w with hbs := w.hbs.set w.idx.toNat { x with ticks := wrap16 (x.ticks - 1) }, idx := w.idx + 1 })
+            (j := { j1 with expect := .endOfRound })
+            ⟨hR1.hbs, hR1.known, hR1.nofn, hR1.dead, hR1.flag, hR1.cur, hR1.ok, hR1.cap, hR1.sub⟩ rfl
+          exact ⟨hd.1, hd.2.1, hd.2.2.1, hd.2.2.2⟩
+        · simp only [hfin, Bool.false_eq_true, if_false]
+          simp only [Bool.not_eq_true, Bool.or_eq_false_iff, decide_eq_false_iff_not] at hfin
+          have hl : (rest.isEmpty || j.trunc) = false := by
+            rw [← h0.flag, hfin.2]
+            cases rest with
+            | nil => exfalso; apply hfin.1; simp at hlen; omega
+            | cons y ys => rfl
+          rw [advance_skip hp hf hl]
+          have hpne : j1.pend ≠ [] := by
+            intro hnil
+            have h1 : rest = [] := hnil
+            apply hfin.1; rw [h1] at hlen; simp at hlen; omega
+          have hih := ih _ j1 hR1 hin (by show w.idx + 1 = ((j.done ++ [_]).length : Int); simp; omega)
+            (by show w.todo = ((j.done ++ [_]).length : Int) + (rest.length : Int); simp; omega) hpne
+            (by show rest.length ≤ fuel; omega)
+          exact ⟨hih.1, hih.2.1, hih.2.2.1, hih.2.2.2⟩
+
+/-- invariant between top-level commands -/
+def Idle (w : World) (j : JState) : Prop :=
+  R0 w j ∧ j.inRound = false ∧ j.expect = .idle ∧ j.bad = []
+
+theorem idle_init : Idle {} {} :=
+  ⟨⟨rfl, rfl, rfl, rfl, rfl, rfl, rfl, Nat.le_refl _, by intro x hx; cases hx⟩, rfl, rfl, rfl⟩
+
+/-- one timer tick -/
+theorem sim_tick (sc : Scripts) {w : World} {j : JState} (h : Idle w j) :
+    Idle (tick sc w).1 ((tick sc w).2.foldl judge1 j) := by
+  obtain ⟨h0, hin, hex, hbad⟩ := h
+  let j0 : JState := { j with done := [], pend := j.done ++ j.pend ++ j.late, late := [], inRound := true, trunc := false }
+  have hjb : judge1 j .tickBegin = advance j0 := by simp [judge1, hex, j0]
+  unfold tick
+  by_cases hpos : ((w.hbs.length : Int) > 0)
+  · simp only [hpos, if_true]
+    have hR : R0 { w with flag := false, todo := (w.hbs.length : Int), idx := 0 } j0 :=
+      ⟨by show w.hbs = [] ++ (j.done ++ j.pend ++ j.late) ++ []; rw [h0.hbs]; simp,
+       h0.known, h0.nofn, h0.dead, rfl, h0.cur, h0.ok, h0.cap, h0.sub⟩
+    have hne : j0.pend ≠ [] := by
+      intro hnil
+      have : w.hbs = [] := by rw [h0.hbs]; exact hnil
+      rw [this] at hpos; simp at hpos
+    have hd := sim_round sc w.hbs.length { w with flag := false, todo := (w.hbs.length : Int), idx := 0 } j0 hR rfl
+      (by show (0 : Int) = (([] : List Entry).length : Int); simp)
+      (by show (w.hbs.length : Int) = (([] : List Entry).length : Int) + ((j.done ++ j.pend ++ j.late).length : Int)
+          rw [h0.hbs]; simp)
+      hne (by show (j.done ++ j.pend ++ j.late).length ≤ w.hbs.length; rw [h0.hbs]; exact Nat.le_refl _)
+    cases hr : round sc w.hbs.length { w with flag := false, todo := (w.hbs.length : Int), idx := 0 } with
+    | mk w' evs =>
+      rw [hr] at hd
+      dsimp only
+      simp only [List.foldl_cons, hjb]
+      exact ⟨hd.1, hd.2.2.1, hd.2.2.2, hd.2.1.trans hbad⟩
+  · simp only [hpos, if_false]
+    have hnil : w.hbs = [] := by
+      cases hh : w.hbs with
+      | nil => rfl
+      | cons a b => rw [hh] at hpos; simp at hpos
+    have hp0 : j0.pend = [] := by show j.done ++ j.pend ++ j.late = []; rw [← h0.hbs]; exact hnil
+    simp only [List.foldl_cons, List.foldl_nil, hjb, advance_nil hp0]
+    have hd := done_end (w := { w with flag := false, todo := (w.hbs.length : Int) }) (j := { j0 with expect := .endOfRound })
+      ⟨by show w.hbs = [] ++ (j.done ++ j.pend ++ j.late) ++ []; rw [h0.hbs]; simp,
+       h0.known, h0.nofn, h0.dead, rfl, h0.cur, h0.ok, h0.cap, h0.sub⟩ rfl
+    refine ⟨⟨?_, hd.1.known, hd.1.nofn, hd.1.dead, hd.1.flag, ?_, hd.1.ok, hd.1.cap, hd.1.sub⟩, hd.2.2.1, hd.2.2.2, hd.2.1.trans hbad⟩
+    · exact hd.1.hbs
+    · exact hd.1.cur
+
+/-- one top-level command -/
+theorem sim_stepCmd (sc : Scripts) {w : World} {j : JState} (h : Idle w j) (c : Cmd) :
+    Idle (stepCmd sc w c).1 ((stepCmd sc w c).2.foldl judge1 j) := by
+  have hok : w.crashed = false := h.1.ok
+  cases c with
+  | tick =>
+    simp only [stepCmd, hok, Bool.false_eq_true, if_false]
+    exact sim_tick sc h
+  | op self op =>
+    obtain ⟨h0, hin, hex, hbad⟩ := h
+    simp only [stepCmd, hok, Bool.false_eq_true, if_false]
+    cases hk : w.known.contains self with
+    | false =>
+      have hjk : j.known.contains self = false := by rw [← h0.known, hk]
+      simp only [Bool.not_false, if_true, List.foldl_cons, List.foldl_nil]
+      have : judge1 j (.topNoObj self) = j := by simp only [judge1, hjk, Bool.false_eq_true, if_false]
+      rw [this]; exact ⟨h0, hin, hex, hbad⟩
+    | true =>
+      simp only [Bool.not_true, Bool.false_eq_true, if_false]
+      cases hd : w.dead.contains self with
+      | true =>
+        have hjd : j.dead.contains self = true := by rw [← h0.dead, hd]
+        simp only [if_true, List.foldl_cons, List.foldl_nil]
+        have : judge1 j (.topDead self) = j := by simp only [judge1, hjd, if_true]
+        rw [this]; exact ⟨h0, hin, hex, hbad⟩
+      | false =>
+        simp only [Bool.false_eq_true, if_false]
+        have hRP : RP w j := ⟨h0, by intro hr; rw [hin] at hr; cases hr⟩
+        have hops := sim_runOps self [op] w j hRP (by unfold opAllowed; rw [hex]; rfl)
+        cases hr : runOps w self [op] with
+        | mk w2 r2 =>
+          cases r2 with
+          | mk evs st =>
+            rw [hr] at hops
+            unfold StepOK at hops
+            cases st with
+            | err =>
+              simp only [if_true] at hops
+              obtain ⟨a, b, c, d, e⟩ := hops
+              dsimp only
+              simp only [List.foldl_append, List.foldl_cons, List.foldl_nil]
+              have : judge1 (evs.foldl judge1 j) (.topErr self) = evs.foldl judge1 j := rfl
+              rw [this]
+              refine ⟨a, c.trans hin, ?_, b.trans hbad⟩
+              rw [d, hin]; simp [hex]
+            | _ =>
+              simp only [reduceCtorEq, if_false] at hops
+              obtain ⟨hR3, hF3⟩ := hops
+              dsimp only
+              exact ⟨hR3.1, hF3.inRound.trans hin, hF3.expect.trans hex, hF3.bad.trans hbad⟩
+
+theorem sim_runCmds (sc : Scripts) : ∀ (cs : List Cmd) (w : World) (j : JState), Idle w j →
+    Idle (runCmds sc w cs).1 ((runCmds sc w cs).2.foldl judge1 j) := by
+  intro cs
+  induction cs with
+  | nil => intro w j h; exact h
+  | cons c cs ih =>
+    intro w j h
+    have h1 := sim_stepCmd sc h c
+    cases hs : stepCmd sc w c with
+    | mk w1 evs =>
+      rw [hs] at h1
+      have h2 := ih w1 (evs.foldl judge1 j) h1
+      cases hr : runCmds sc w1 cs with
+      | mk w2 evs2 =>
+        rw [hr] at h2
+        simp only [runCmds, hs, hr, List.foldl_append]
+        exact h2
 
 end NV.C11
